@@ -64,6 +64,8 @@ pub enum Tok {
     Start(usize),
     /// `e<i>o` / `e<i>e`
     End(usize, bool),
+    /// `!`: a user future sent the interrupt signal at this point (event `k<i>`)
+    Sig,
 }
 
 fn fmt_trace(t: &[Tok]) -> String {
@@ -74,6 +76,7 @@ fn fmt_trace(t: &[Tok]) -> String {
         .map(|t| match t {
             Tok::Start(i) => format!("s{i}"),
             Tok::End(i, ok) => format!("e{}{}", i, if *ok { 'o' } else { 'e' }),
+            Tok::Sig => "!".to_string(),
         })
         .collect::<Vec<_>>()
         .join(" ")
@@ -87,10 +90,17 @@ pub struct Shared {
     completed: Vec<Option<bool>>,
     wakers: Vec<Option<Waker>>,
     imm: Vec<Option<bool>>,
+    /// `k<i>`: the future of `i` sends the interrupt signal when it is polled to completion
+    sig: Vec<bool>,
+    sig_tx: Option<mpsc::Sender<InterruptSignal>>,
+    /// `bops=<p>`: budget-consuming tokio operations every user future performs before completing
+    bops: usize,
+    bops_left: Vec<usize>,
+    budget_tx: Option<mpsc::Sender<()>>,
 }
 
 impl Shared {
-    fn new(n: usize, imm_list: &[(usize, bool)]) -> Shared {
+    fn new(n: usize, imm_list: &[(usize, bool)], sig_fn: Option<usize>, bops: usize) -> Shared {
         let mut imm = vec![None; n];
         for &(i, ok) in imm_list {
             if i < n {
@@ -103,6 +113,11 @@ impl Shared {
             completed: vec![None; n],
             wakers: vec![None; n],
             imm,
+            sig: (0..n).map(|i| Some(i) == sig_fn).collect(),
+            sig_tx: None,
+            bops,
+            bops_left: vec![bops; n],
+            budget_tx: None,
         }
     }
 
@@ -111,6 +126,9 @@ impl Shared {
             self.completed.resize(id + 1, None);
             self.wakers.resize(id + 1, None);
             self.imm.resize(id + 1, None);
+            self.sig.resize(id + 1, false);
+            let bops = self.bops;
+            self.bops_left.resize(id + 1, bops);
         }
     }
 }
@@ -174,16 +192,40 @@ impl<O: UserOut> Future for ControlledFut<O> {
     fn poll(self: Pin<&mut Self>, cx: &mut Context<'_>) -> Poll<O> {
         let id = self.id;
         let mut s = self.sh.borrow_mut();
-        if let Some(ok) = s.completed[id] {
-            return Poll::Ready(O::make(id, ok));
+        let done = match (s.completed[id], s.imm[id]) {
+            (Some(ok), _) => Some((ok, false)),
+            (None, Some(ok)) => Some((ok, true)),
+            (None, None) => None,
+        };
+        let Some((ok, by_imm)) = done else {
+            s.wakers[id] = Some(cx.waker().clone());
+            return Poll::Pending;
+        };
+        // `bops`: the future first performs tokio operations that each take one unit of the task's
+        // cooperative budget (a bounded-channel send that always has room); out of budget = Pending
+        while s.bops_left[id] > 0 {
+            let tx = match s.budget_tx.clone() {
+                Some(tx) => tx,
+                None => break,
+            };
+            let mut send = std::pin::pin!(tx.send(()));
+            match send.as_mut().poll(cx) {
+                Poll::Ready(_) => s.bops_left[id] -= 1,
+                Poll::Pending => return Poll::Pending,
+            }
         }
-        if let Some(ok) = s.imm[id] {
+        if by_imm {
             s.completed[id] = Some(ok);
             s.trace.push(Tok::End(id, ok));
-            return Poll::Ready(O::make(id, ok));
         }
-        s.wakers[id] = Some(cx.waker().clone());
-        Poll::Pending
+        if s.sig[id] {
+            s.sig[id] = false;
+            if let Some(tx) = s.sig_tx.as_ref() {
+                let _ = tx.try_send(InterruptSignal);
+            }
+            s.trace.push(Tok::Sig);
+        }
+        Poll::Ready(O::make(id, ok))
     }
 }
 
@@ -599,7 +641,7 @@ impl<'g> CallRun<'g> {
             GRef::Shared(g) => g.graph.node_count(),
             GRef::Mut(g) => g.graph.node_count(),
         };
-        let sh = Rc::new(RefCell::new(Shared::new(n, &cfg.imm)));
+        let sh = Rc::new(RefCell::new(Shared::new(n, &cfg.imm, cfg.sig, cfg.bops)));
         let (flag, waker) = flag_waker(true);
         let (tx, rx) = mpsc::channel::<InterruptSignal>(16);
         let (rx_lib, rx_unused) = if cfg.with && cfg.strat != Strat::Non {
@@ -607,6 +649,7 @@ impl<'g> CallRun<'g> {
         } else {
             (None, Some(rx))
         };
+        sh.borrow_mut().sig_tx = Some(tx.clone());
         let fut = make_call(g, cfg, &sh, IntSrc::Rx(rx_lib));
         CallRun {
             fut: Some(fut),
@@ -635,8 +678,9 @@ impl<'g> CallRun<'g> {
             GRef::Shared(g) => g.graph.node_count(),
             GRef::Mut(g) => g.graph.node_count(),
         };
-        let sh = Rc::new(RefCell::new(Shared::new(n, &cfg.imm)));
+        let sh = Rc::new(RefCell::new(Shared::new(n, &cfg.imm, cfg.sig, cfg.bops)));
         let (flag, waker) = flag_waker(true);
+        sh.borrow_mut().sig_tx = Some(tx.clone());
         let fut = make_call(g, cfg, &sh, IntSrc::State(state));
         CallRun {
             fut: Some(fut),
@@ -758,6 +802,9 @@ impl<'g> CallRun<'g> {
             CallEvKind::Tokio => {
                 if self.status == Status::Pending {
                     if let Some(fut) = self.fut.take() {
+                        // sink of the budget-consuming operations of the user futures (`bops`)
+                        let (btx, _brx) = mpsc::channel::<()>(1 << 20);
+                        self.sh.borrow_mut().budget_tx = Some(btx);
                         let res = catch_unwind(AssertUnwindSafe(|| {
                             let rt = tokio::runtime::Builder::new_current_thread()
                                 .enable_time()
